@@ -332,6 +332,11 @@ def check(run, model, tier):
             a = c.args[0] if c.args else None
             if isinstance(a, ast.Name) and len(mdefs_.get(a.id, [])) == 1 and isinstance(mdefs_[a.id][0], ast.AST):
                 a = mdefs_[a.id][0]          # the line built into a local first
+            elif isinstance(a, ast.Name):
+                # ... a local that starts as None and is set to the line once (`line = None` / `if instrumented: line = ...` / `if line is not None: append(line)`)
+                real_ = [d_ for d_ in mdefs_.get(a.id, []) if isinstance(d_, ast.AST) and not (isinstance(d_, ast.Constant) and d_.value is None)]
+                if len(real_) == 1 and all(isinstance(d_, ast.AST) for d_ in mdefs_.get(a.id, [])):
+                    a = real_[0]
             lit = const_str(a)
             fmt = partial_format(a)
             if lit == text or (fmt is not None and fmt.startswith(text)):
